@@ -635,7 +635,7 @@ def _tool_loop_table(p, led, nuc, twt):
     for limit in (0, 1, 2, 3, 4, 9, 30):
         FINALS = ("forever, and has nothing to say in the final completion", "forever, and fails the final completion")
         for behaviour in (("forever", "stops") if limit <= 4 else ("forever",)) + (("raises",) if limit else ()) + (("forever, a tool re-enters the loop",) if 2 <= limit <= 3 else ()) \
-                + (FINALS if limit in (0, 1, 2) else ()):
+                + (FINALS if limit in (0, 1, 2) else ()) + (("forever, and the tool backend raises",) if limit in (1, 2) else ()):
             def go(o, _limit=limit, _beh=behaviour):
                 it = Interp(p, o)
                 log = []
@@ -684,6 +684,8 @@ def _tool_loop_table(p, led, nuc, twt):
                 @stub
                 def run_tool(interp, args, kwargs):
                     log.append("exec")
+                    if "backend raises" in _beh:
+                        raise PyRaise(ExcVal("RuntimeError", ("tool backend unavailable",)))
                     if "re-enters" in _beh and nested["depth"] == 0:
                         # every tool call of the outer conversation delegates a sub-question to the same nucleus, with a budget
                         # of one round of its own
@@ -717,6 +719,8 @@ def _tool_loop_table(p, led, nuc, twt):
                     probs.append(f"{tag}: {rounds} tool rounds")
                 if r["log"].count("failed-call") > 1:
                     probs.append(f"{tag}: the failing provider call was issued {r['log'].count('failed-call')} times")
+                if "backend raises" in behaviour:
+                    continue            # rounds ≤ limit was judged above; whether the failure propagates or is reported to the model is open
                 if "final completion" in behaviour:
                     if plain > 1:
                         probs.append(f"{tag}: the provider is asked for {plain} plain completions after the exhausted loop (one final completion is the budget; retries of it are further completions)")
